@@ -314,44 +314,6 @@ type retainer struct {
 
 var curRetainer atomic.Value // *retainer
 
-// knownAlias names the known finding an observation on a value of this codec and kind belongs
-// to ("" = none). The unchanged library decodes these kinds WITHOUT copying (known_findings.txt):
-//
-//	plain-named-alias  plain codec, destination of a named string / named []byte type:
-//	                   parseProperType does v.SetString(goutil.BytesToString(data)) / v.SetBytes(data)
-//	form-alias         form codec: url.ParseQuery(goutil.BytesToString(data)) returns values that
-//	                   are substrings of data whenever a value needs no unescaping
-//
-// Only the four "bytes of another message" classes are re-keyed; call-failed never is.
-func knownAlias(codec byte, k rkind, key string) string {
-	if key == "call-failed" {
-		return ""
-	}
-	switch {
-	case codec == 's' && (k == rkNamedStr || k == rkNamedBytes):
-		return "plain-named-alias"
-	case codec == 'f':
-		return "form-alias"
-	}
-	return ""
-}
-
-// failOp reports a failure observed on a value of operation op.
-func (r *retainer) failOp(op *rop, key, what, human string) {
-	if kn := knownAlias(op.codec, op.kind, key); kn != "" {
-		r.mu.Lock()
-		r.failN["known:"+kn]++
-		n := r.failN["known:"+kn]
-		r.mu.Unlock()
-		statCount(r.st, "retain-known:"+kn)
-		if n == 1 {
-			statFail(r.st, r.cw.Total, kn, what+" ["+key+"]", human)
-		}
-		return
-	}
-	r.fail(key, what, human)
-}
-
 func (r *retainer) fail(key, what, human string) {
 	atomic.AddInt32(&r.failed, 1)
 	r.mu.Lock()
@@ -406,7 +368,7 @@ func rEnter(ctx metaCtx, k rkind, arg interface{}) (content, *erpc.Status) {
 	if k != op.kind {
 		r.fail("handler-input-foreign", fmt.Sprintf("%s: operation %s was delivered to the handler for kind %s", op.cell, tag, rkindName[k]), tag)
 	} else if !entry.equal(op.sent) {
-		r.failOp(op, "handler-input-foreign", fmt.Sprintf("%s: on entry the handler of %s saw %s, its sender supplied %s", op.cell, tag, entry, op.sent), tag)
+		r.fail("handler-input-foreign", fmt.Sprintf("%s: on entry the handler of %s saw %s, its sender supplied %s", op.cell, tag, entry, op.sent), tag)
 	}
 	if op.hold {
 		rel, _ := r.release.Load().(chan struct{})
@@ -681,7 +643,7 @@ func (r *retainer) finish(op *rop, cmd erpc.CallCmd) {
 			// messages had been read
 			key, why = "held-input-foreign", "was computed by a handler that was still running while later messages were read on its connection, and is not the transform of the call's own arguments"
 		}
-		r.failOp(op, key, fmt.Sprintf("%s: the result of call %s %s: got %s want %s", op.cell, op.tag, why, op.atDone, want), human)
+		r.fail(key, fmt.Sprintf("%s: the result of call %s %s: got %s want %s", op.cell, op.tag, why, op.atDone, want), human)
 	}
 }
 
@@ -723,12 +685,12 @@ func (r *retainer) recheck(when string, ops []*rop, seen []*rseen) {
 		op := rec.op
 		r.eval()
 		if rec.exit != nil && !rec.exit.equal(rec.entry) {
-			r.failOp(op, "held-input-foreign", fmt.Sprintf("%s: the argument of %s changed while its handler was running (later messages were read on the connection meanwhile): on entry %s, on return %s", op.cell, op.tag, rec.entry, *rec.exit), op.tag)
+			r.fail("held-input-foreign", fmt.Sprintf("%s: the argument of %s changed while its handler was running (later messages were read on the connection meanwhile): on entry %s, on return %s", op.cell, op.tag, rec.entry, *rec.exit), op.tag)
 			rec.exit = nil
 		}
 		for i, s := range rec.strs {
 			if string(rec.strsCopy[i]) != s {
-				r.failOp(op, "held-input-foreign", fmt.Sprintf("%s: a string the handler of %s took from its argument reads differently %s: it was %q, it is %q", op.cell, op.tag, when, clip(string(rec.strsCopy[i]), 100), clip(s, 100)), op.tag)
+				r.fail("held-input-foreign", fmt.Sprintf("%s: a string the handler of %s took from its argument reads differently %s: it was %q, it is %q", op.cell, op.tag, when, clip(string(rec.strsCopy[i]), 100), clip(s, 100)), op.tag)
 				rec.strs = nil
 				break
 			}
@@ -754,13 +716,13 @@ func (r *retainer) recheck(when string, ops []*rop, seen []*rseen) {
 			continue
 		}
 		if now := readVal(op.kind, op.res); !now.equal(op.atDone) {
-			r.failOp(op, "held-result-foreign", fmt.Sprintf("%s: the result of call %s reads differently %s (later messages have been read since the call completed): at completion %s, now %s", op.cell, op.tag, when, op.atDone, now), op.tag)
+			r.fail("held-result-foreign", fmt.Sprintf("%s: the result of call %s reads differently %s (later messages have been read since the call completed): at completion %s, now %s", op.cell, op.tag, when, op.atDone, now), op.tag)
 			op.ok = false
 			continue
 		}
 		for i, s := range op.strs {
 			if string(op.strsCopy[i]) != s {
-				r.failOp(op, "held-result-foreign", fmt.Sprintf("%s: a string taken from the result of call %s reads differently %s: it was %q, it is %q", op.cell, op.tag, when, clip(string(op.strsCopy[i]), 100), clip(s, 100)), op.tag)
+				r.fail("held-result-foreign", fmt.Sprintf("%s: a string taken from the result of call %s reads differently %s: it was %q, it is %q", op.cell, op.tag, when, clip(string(op.strsCopy[i]), 100), clip(s, 100)), op.tag)
 				op.strs = nil
 				break
 			}
@@ -934,10 +896,7 @@ func (r *retainer) emitCases(cell rcell, dir int, ops []*rop, seen []*rseen) {
 			for i, it := range items {
 				vals[i] = it.val
 			}
-			kindSym := "string"
-			if cell.kind == rkBytes {
-				kindSym = "bytes"
-			}
+			kindSym := rkindName[cell.kind] // string | bytes | named-string | named-bytes
 			r.cw.Add(VL(VS("held"), VN(int64(socket.MessageSizeLimit())), VS(kindSym), VL(frames...)), VL(vals...))
 			statCount(r.st, "retain-case")
 		}
@@ -1064,7 +1023,7 @@ func retainScenario(cfg *RunCfg, st *Stats, cw *CaseWriter, rounds int) int {
 				statCount(st, "retain-skipped:after-many-failures")
 				break
 			}
-			emit := proto == "raw" && cell.codec == 's' && (cell.kind == rkString || cell.kind == rkBytes) && cell.pipe != "g"
+			emit := proto == "raw" && cell.codec == 's' && cell.kind <= rkNamedBytes && cell.pipe != "g"
 			r.runCell(cell, cks, emit)
 			statCount(st, "retain-cell:"+proto)
 		}
